@@ -206,6 +206,68 @@ fn c08_records_min_v2() {
     parse_min_body::<8>();
 }
 
+/// shape (2,2,8,0,0,0), 64-bit block: two transitions, two types whose designations may overlap (shared suffix / same string)
+#[kani::proof]
+#[kani::unwind(14)]
+fn c08_records_two_v2() {
+    let times: [u8; 16] = kani::any();
+    let tidx: [u8; 2] = kani::any();
+    let ltt: [u8; 12] = kani::any();
+    let chars: [u8; 8] = [b'A', b'B', b'C', b'D', 0, b'X', b'Y', 0];
+    let blocks: DataBlocks<'_, 8> =
+        DataBlocks { transition_times: &times, transition_types: &tidx, local_time_types: &ltt, time_zone_designations: &chars, leap_seconds: &[], std_walls: &[], ut_locals: &[] };
+    let h = Header { version: Version::V2, ut_local_count: 0, std_wall_count: 0, leap_count: 0, transition_count: 2, type_count: 2, char_count: 8 };
+    let r = blocks.parse(&h, None);
+    let t0 = i64::from_be_bytes([times[0], times[1], times[2], times[3], times[4], times[5], times[6], times[7]]);
+    let t1 = i64::from_be_bytes([times[8], times[9], times[10], times[11], times[12], times[13], times[14], times[15]]);
+    let mut types: [Option<LocalTimeType>; 2] = [None, None];
+    let mut bad: u8 = 0; // 1 dst indicator, 2 char index, 3 local time type error
+    let mut k = 0;
+    while k < 2 {
+        let o = 6 * k;
+        let off = i32::from_be_bytes([ltt[o], ltt[o + 1], ltt[o + 2], ltt[o + 3]]);
+        let ci = ltt[o + 5] as usize;
+        if bad == 0 {
+            if ltt[o + 4] > 1 {
+                bad = 1;
+            } else if ci >= 8 {
+                bad = 2;
+            } else {
+                // NUL-terminated string starting at ci (the table above has NULs at 4 and 7)
+                let end = if ci <= 4 { 4 } else { 7 };
+                let name: Option<&[u8]> = if end == ci { None } else { Some(&chars[ci..end]) };
+                match LocalTimeType::new(off, ltt[o + 4] == 1, name) {
+                    Ok(l) => types[k] = Some(l),
+                    Err(_) => bad = 3,
+                }
+            }
+        }
+        k += 1;
+    }
+    match bad {
+        1 => assert!(matches!(&r, Err(TzError::TzFile(TzFileError::InvalidDstIndicator)))),
+        2 => assert!(matches!(&r, Err(TzError::TzFile(TzFileError::InvalidTimeZoneDesignationCharIndex)))),
+        3 => assert!(matches!(&r, Err(TzError::LocalTimeType(_)))),
+        _ => {
+            let ty = [types[0].unwrap(), types[1].unwrap()];
+            let tr = [Transition::new(t0, tidx[0] as usize), Transition::new(t1, tidx[1] as usize)];
+            let exp = TimeZoneRef::new(&tr, &ty, &[], &None).map(|_| ());
+            match (&r, &exp) {
+                (Ok(z), Ok(())) => {
+                    let zr = z.as_ref();
+                    assert!(zr.transitions().len() == 2 && zr.transitions()[0] == tr[0] && zr.transitions()[1] == tr[1]);
+                    assert!(zr.local_time_types().len() == 2 && zr.local_time_types()[0] == ty[0] && zr.local_time_types()[1] == ty[1]);
+                }
+                (Err(a), Err(b)) => assert!(core::mem::discriminant(a) == core::mem::discriminant(b)),
+                _ => assert!(false),
+            }
+            kani::cover!(r.is_ok() && ltt[5] == 1 && ltt[11] == 0);
+        }
+    }
+    kani::cover!(bad == 3);
+    core::mem::forget(r);
+}
+
 /// shape (1,1,4,1,1,1): one leap record and both indicator blocks
 #[kani::proof]
 #[kani::unwind(14)]
